@@ -20,7 +20,10 @@
 //! The oracle is written from the property text only: the reloaded valueset must be `equal` to
 //! the original (both directions), have the same syntax, size, strings, index keys and
 //! re-encode to the same stored JSON, and behave identically — a password / TOTP / backup code
-//! accepts exactly the same inputs before and after, a key signs verifiably the same way.
+//! accepts exactly the same inputs before and after, a key signs verifiably the same way, and
+//! (`c12_data/battery.rs`) EVERY method of the `ValueSetT` trait answers the same on the original
+//! and on the reloaded value for arguments derived from the original: fields a struct keeps but
+//! the encoder does not write (caches, pre-filters, a designated primary) are only visible there.
 use hlib::*;
 use kanidm_lib_crypto::{CryptoPolicy, Password};
 use kanidm_proto::internal::{Filter as ProtoFilter, ImageType, ImageValue, UiHint};
@@ -43,6 +46,9 @@ include!("../c12_data/pwvectors.rs");
 include!("../c12_data/certs.rs");
 include!("../c12_data/sshkeys.rs");
 include!("../c12_data/passkeys.rs");
+
+#[path = "../c12_data/battery.rs"]
+mod battery;
 
 // ------------------------------------------------------------------------------------
 // small generators
@@ -817,8 +823,42 @@ impl Ctx {
         self.rep.fail(Failure { kind: "impl-vs-model".into(), class: class.into(), input, expected, observed });
     }
 
-    /// Store + load `b.vs` and judge it. Returns the stored JSON.
-    fn roundtrip(&mut self, name: &str, b: &Built, input: J) -> Option<J> {
+    /// The behaviour battery: `reloaded` must answer every question like `orig` does.
+    fn same_behaviour(&mut self, name: &str, how: &str, orig: &ValueSet, reloaded: &ValueSet, args: &battery::ProbeArgs, want: &[battery::Answer], input: &J) {
+        let got = battery::battery(reloaded, args, None);
+        self.rep.count_n("battery:answers-compared", got.len() as u64);
+        if let Some((k, method, arg, a, b)) = battery::first_difference(want, &got) {
+            // an answer that depends on the iteration order of a hash set is not a difference
+            if battery::original_also_answers(orig, args, k, &b, 64) {
+                self.rep.count(&format!("battery:construction-dependent:{name}:{method}"));
+                // look past it: compare the rest with this question masked
+                let mut w2 = want.to_vec();
+                let mut g2 = got.clone();
+                let mut guard_n = 0;
+                while let Some((k2, m2, a2, x2, y2)) = battery::first_difference(&w2, &g2) {
+                    if guard_n < 8 && battery::original_also_answers(orig, args, k2, &y2, 64) {
+                        self.rep.count(&format!("battery:construction-dependent:{name}:{m2}"));
+                        w2[k2].2.clear();
+                        g2[k2].2.clear();
+                        guard_n += 1;
+                        continue;
+                    }
+                    let mut inp = input.clone();
+                    inp["probe"] = json!({"method": m2, "argument": clip(&a2), "reloaded_via": how});
+                    self.oracle_fail(&format!("behaviour-differs:{name}:{m2}"), inp, clip(&format!("{m2}({a2}) = {x2}")), clip(&format!("{m2}({a2}) = {y2}")));
+                    break;
+                }
+                return;
+            }
+            let mut inp = input.clone();
+            inp["probe"] = json!({"method": method, "argument": clip(&arg), "reloaded_via": how});
+            self.oracle_fail(&format!("behaviour-differs:{name}:{method}"), inp, clip(&format!("{method}({arg}) = {a}")), clip(&format!("{method}({arg}) = {b}")));
+        }
+    }
+
+    /// Store + load `b.vs` and judge it. Returns the stored JSON. `other`: a second value set of the
+    /// same struct (argument of `merge`, `repl_merge_valueset`, source of values to insert).
+    fn roundtrip(&mut self, name: &str, b: &Built, other: &ValueSet, input: J) -> Option<J> {
         let probe = Probe { verify: b.verify, cleartexts: &b.cleartexts, totp_time: Duration::from_secs(1_700_000_000), backup_codes: &b.backup_codes };
         let before = behaviour(&b.vs, name, &probe);
         let s1 = match hk::vs_to_db_json(&b.vs) {
@@ -847,8 +887,10 @@ impl Ctx {
         let eq1 = !reflexive || guard(|| b.vs.equal(&back)) == Some(true);
         let eq2 = !reflexive || guard(|| back.equal(&b.vs)) == Some(true);
         let j2: J = hk::vs_to_db_json(&back).ok().and_then(|s| serde_json::from_str(&s).ok()).unwrap_or(J::Null);
+        let mut recognised = false;
         if !(eq1 && eq2) && name == "ValueSetMessage" && canon(&j1) == canon(&j2) && message_differs_only_subsecond(&b.vs, &back) {
             // recognised: `expiry_time` is stored in whole seconds
+            recognised = true;
             self.oracle_fail("message-expiry-subsecond-lost", input.clone(), clip(&format!("{:?}", b.vs)), clip(&format!("{back:?} stored {s1}")));
         } else if !(eq1 && eq2) {
             self.oracle_fail(&format!("not-equal:{name}"), input.clone(), "reloaded valueset equal to the original".into(), format!("equal={eq1}/{eq2} stored {}", clip(&s1)));
@@ -857,6 +899,26 @@ impl Ctx {
         } else if canon(&j1) != canon(&j2) {
             self.oracle_fail(&format!("restored-form-differs:{name}"), input.clone(), clip(&canon(&j1).to_string()), clip(&canon(&j2).to_string()));
         }
+        // --- oracle: identical behaviour on the whole `ValueSetT` surface
+        let tb = std::time::Instant::now();
+        let pargs = battery::ProbeArgs::derive(&b.vs, other);
+        let want = battery::battery(&b.vs, &pargs, None);
+        self.rep.count_n("battery:questions", want.len() as u64);
+        // sanity: the battery is a function of the value — a clone of the original answers alike
+        let nth = self.rep.histogram.get(&format!("battery:{name}")).cloned().unwrap_or(0);
+        self.rep.count(&format!("battery:{name}"));
+        if nth < 4 || nth % 16 == 0 {
+            let again = battery::battery(&b.vs.clone(), &pargs, None);
+            self.rep.count("battery:self-checks");
+            if let Some((_, method, arg, x, y)) = battery::first_difference(&want, &again) {
+                self.model_fail(&format!("battery-unstable:{name}:{method}"), input.clone(), clip(&format!("{method}({arg}) = {x}")), clip(&format!("on a clone: {y}")));
+            }
+        }
+        // (a value already recognised as a known finding is a different value: nothing to add)
+        if !recognised {
+            self.same_behaviour(name, "to_db_valueset_v2+serde_json+from_db_valueset_v2", &b.vs, &back, &pargs, &want, &input);
+        }
+        self.rep.count_n(&format!("ms-battery:{name}"), tb.elapsed().as_millis() as u64);
         // correspondence on the message expiry's time codec (D24)
         if let (true, Some(OutboundMessage::CredentialResetV1 { expiry_time: e0, .. }), Some(OutboundMessage::CredentialResetV1 { expiry_time: e1, .. })) =
             (name == "ValueSetMessage", guard(|| b.vs.as_message().cloned()).flatten(), guard(|| back.as_message().cloned()).flatten())
@@ -879,6 +941,10 @@ impl Ctx {
                 let same = if b.cleartexts.is_empty() { behaviour(&d, name, &probe) == before } else { behaviour(&d, name, &cheap) == behaviour(&b.vs, name, &cheap) };
                 if !deq || !same {
                     self.oracle_fail(&format!("direct-not-equal:{name}"), input.clone(), "to_db_valueset_v2 → from_db_valueset_v2 is the identity".into(), "differs".into());
+                }
+                // the decoder is the same function with and without serde: every fourth case
+                if nth % 4 == 0 && !recognised {
+                    self.same_behaviour(name, "to_db_valueset_v2+from_db_valueset_v2 (no serde)", &b.vs, &d, &pargs, &want, &input);
                 }
             }
             Err(e) => self.oracle_fail(&format!("direct-load-failed:{name}"), input.clone(), "loads".into(), e),
@@ -1207,6 +1273,12 @@ fn run_tags(ctx: &mut Ctx, seed: u64) {
 // ------------------------------------------------------------------------------------
 // part: values
 
+/// A second value set of struct `name` (independent random stream), or a clone of `fallback`.
+fn second_set(name: &str, seed: u64, i: u64, fallback: &ValueSet) -> ValueSet {
+    let mut r = Rng::for_case(seed, 0x07e4_0000_0000 + i);
+    guard(|| build(name, &mut r)).flatten().map(|b| b.vs).unwrap_or_else(|| fallback.clone())
+}
+
 fn run_value_case(ctx: &mut Ctx, seed: u64, i: u64, names: &[String]) {
     let mut r = Rng::for_case(seed, i);
     let name = &names[(i % names.len() as u64) as usize];
@@ -1228,7 +1300,10 @@ fn run_value_case(ctx: &mut Ctx, seed: u64, i: u64, names: &[String]) {
     }
     let mut input = input;
     input["note"] = json!(b.note);
-    let stored = ctx.roundtrip(name, &b, input);
+    let t1 = std::time::Instant::now();
+    let other = second_set(name, seed, i, &b.vs);
+    ctx.rep.count_n(&format!("ms-second-set:{name}"), t1.elapsed().as_millis() as u64);
+    let stored = ctx.roundtrip(name, &b, &other, input);
     ctx.rep.count_n(&format!("ms:{name}"), t0.elapsed().as_millis() as u64);
     let key = stored.as_ref().map(|j| clip(&j.to_string())).unwrap_or_default();
     ctx.rep.case(if b.vs.len() >= 1 { Some(format!("{name} {key}")) } else { None });
@@ -1253,7 +1328,9 @@ fn run_password_case(ctx: &mut Ctx, seed: u64, i: u64, kdfs: &[String]) {
     let mut cleartexts = BTreeMap::new();
     cleartexts.insert("pw".to_string(), clear);
     let b = Built { verify: true, vs: from_values(vec![Value::Cred("pw".into(), c)]), cleartexts, backup_codes: codes, note: k };
-    let stored = ctx.roundtrip("ValueSetCredential", &b, input);
+    // (a second credential set would double the hashing; the `values` part merges real second sets)
+    let other = b.vs.clone();
+    let stored = ctx.roundtrip("ValueSetCredential", &b, &other, input);
     ctx.rep.case(Some(format!("password {kdf} {}", stored.map(|j| clip(&j.to_string())).unwrap_or_default())));
 }
 
@@ -1443,7 +1520,8 @@ fn run_stored_docs(ctx: &mut Ctx, seed: u64, round: u64) {
             let name = struct_name(&vs1);
             let mut b = Built::plain(vs1);
             b.verify = false;
-            ctx.roundtrip(&name, &b, input);
+            let other = second_set(&name, seed, 0x5d00_0000 + round, &b.vs);
+            ctx.roundtrip(&name, &b, &other, input);
         }
     }
 }
@@ -1471,7 +1549,8 @@ fn regression(ctx: &mut Ctx) {
     ctx.rep.count("regression:D20");
     ctx.rep.case(Some("regression D20".into()));
     let n = ctx.rep.failures.len();
-    ctx.roundtrip("ValueSetJwsKeyRs256", &b, json!({"part": "regression", "witness": "D20"}));
+    let other = b.vs.clone();
+    ctx.roundtrip("ValueSetJwsKeyRs256", &b, &other, json!({"part": "regression", "witness": "D20"}));
     for f in ctx.rep.failures.iter_mut().skip(n) {
         if f.kind == "impl-vs-oracle" {
             f.class = "D20:rs256-keys-decoded-as-es256".into();
@@ -1510,7 +1589,8 @@ fn main() {
                 if let Ok(vs1) = hk::vs_from_db_json(&doc.to_string()) {
                     let name = struct_name(&vs1);
                     ctx.rep.case(Some("replay".into()));
-                    ctx.roundtrip(&name, &Built::plain(vs1), inp.clone());
+                    let other = second_set(&name, seed, 0x5d00_0000, &vs1);
+                    ctx.roundtrip(&name, &Built::plain(vs1), &other, inp.clone());
                 }
             }
         }
